@@ -123,3 +123,121 @@ Fixpoint sq_undouble (s : list N) : list N :=
   | [] => []
   end.
 Definition sq_double (t : list N) : list N := flat_map (fun c => if c =? 39 then [39; 39] else [c]) t.
+
+(* ---- presentations: how a text may be written (used to STATE the complete property) ---------------------- *)
+(* what a double-quoted scalar is made of, outside its breaks *)
+Inductive dq_item :=
+| ILit (c : N)                                   (* a character written as itself (may be a blank) *)
+| INamed (e v : N)                               (* backslash e, standing for v *)
+| IHex (e : N) (ds : list N) (v : N).            (* backslash x|u|U and hexadecimal digits ds, standing for v *)
+Definition item_src (i : dq_item) : list N :=
+  match i with ILit c => [c] | INamed e _ => [92; e] | IHex e ds _ => 92 :: e :: ds end.
+Definition item_val (i : dq_item) : N :=
+  match i with ILit c => c | INamed _ v => v | IHex _ _ v => v end.
+Definition is_lit_blank (i : dq_item) : bool := match i with ILit c => is_sp c | _ => false end.
+
+(* nb-json without the quote and the backslash, and not white: a literal non-blank of a double-quoted scalar *)
+Definition spec_dq_literal (c : N) : bool := (32 <? c) && (c <=? 1114111) && negb (c =? 34) && negb (c =? 92).
+Definition opt_N_eqb (a b : option N) : bool :=
+  match a, b with Some x, Some y => x =? y | None, None => true | _, _ => false end.
+Definition item_wf (i : dq_item) : bool :=
+  match i with
+  | ILit c => spec_dq_literal c || is_sp c
+  | INamed e v => opt_N_eqb (spec_escape e) (Some v)
+  | IHex e ds v => existsb (fun p => (fst p =? e) && Nat.eqb (snd p) (length ds)) spec_numeric_escapes
+                   && opt_N_eqb (hex_value ds) (Some v) && spec_scalar_value v
+  end.
+
+(* a break as it is written: trailing blank padding, the backslash of an escaped break, the break, empty lines
+   (each blank only), the indentation of the continuation line (blank only) *)
+Record brk_layout := { bl_escaped : bool; bl_pad : list N; bl_empties : list (list N); bl_indent : list N }.
+Definition render_brk (b : brk_layout) : list N :=
+  bl_pad b ++ (if bl_escaped b then [92] else []) ++ [10] ++ flat_map (fun e => e ++ [10]) (bl_empties b) ++ bl_indent b.
+Definition brk_of (b : brk_layout) : line_break :=
+  if bl_escaped b then Escaped (length (bl_empties b)) else Folded (length (bl_empties b)).
+Fixpoint leading_spaces (l : list N) : nat := match l with 32 :: r => S (leading_spaces r) | _ => O end.
+(* s-flow-line-prefix(n): n spaces, then any blanks;  l-empty(n): that, or fewer than n spaces and nothing else *)
+Definition indent_wf (n : nat) (l : list N) : bool := forallb is_sp l && Nat.leb n (leading_spaces l).
+Definition empty_wf (n : nat) (l : list N) : bool := indent_wf n l || (forallb (N.eqb 32) l && Nat.ltb (length l) n).
+Definition brk_wf (n : nat) (b : brk_layout) : bool :=
+  forallb is_sp (bl_pad b) && (negb (bl_escaped b) || match bl_pad b with [] => true | _ => false end)
+  && forallb (empty_wf n) (bl_empties b) && indent_wf n (bl_indent b).
+
+(* c-forbidden: a continuation line must not look like a document marker in column 0 *)
+Definition marker_at_col0 (indent src : list N) : bool :=
+  match indent with
+  | [] => match src with
+          | a :: b :: c :: r => ((a =? 45) && (b =? 45) && (c =? 45) || (a =? 46) && (b =? 46) && (c =? 46))
+                                && match r with [] => true | d :: _ => is_sp d || (d =? 10) || (d =? 13) end
+          | _ => false
+          end
+  | _ => false
+  end.
+
+Definition last_is_lit_blank (seg : list dq_item) : bool := match rev seg with i :: _ => is_lit_blank i | [] => false end.
+Definition first_is_lit_blank (seg : list dq_item) : bool := match seg with i :: _ => is_lit_blank i | [] => false end.
+
+(* the segments after the first: [prev] is the segment before the break *)
+Fixpoint dq_rest_wf (n : nat) (prev : list dq_item) (rest : list (brk_layout * list dq_item)) : bool :=
+  match rest with
+  | [] => true
+  | (b, seg) :: r =>
+      brk_wf n b && forallb item_wf seg
+      && (bl_escaped b || negb (last_is_lit_blank prev))     (* blanks before a folded break would be dropped *)
+      && negb (first_is_lit_blank seg)                       (* blanks after a break are dropped *)
+      && negb (marker_at_col0 (bl_indent b) (flat_map item_src seg))
+      && (match r with [] => true | _ => match seg with [] => false | _ => true end end)   (* inner segments are not empty *)
+      && dq_rest_wf n seg r
+  end.
+Definition dq_layout_wf (n : nat) (first : list dq_item) (rest : list (brk_layout * list dq_item)) : bool :=
+  forallb item_wf first && dq_rest_wf n first rest.
+Definition dq_render (first : list dq_item) (rest : list (brk_layout * list dq_item)) : list N :=
+  flat_map item_src first ++ flat_map (fun p => render_brk (fst p) ++ flat_map item_src (snd p)) rest.
+Definition dq_text (first : list dq_item) (rest : list (brk_layout * list dq_item)) : list N :=
+  fold_lines (map item_val first) (map (fun p => (brk_of (fst p), map item_val (snd p))) rest).
+
+(* single-quoted: the same with literal characters only, a quote written twice, no escaped breaks *)
+Definition sq_item_wf (i : dq_item) : bool :=
+  match i with ILit c => ((32 <? c) && (c <=? 1114111)) || is_sp c | _ => false end.
+Definition sq_src (i : dq_item) : list N := match i with ILit 39 => [39; 39] | _ => item_src i end.
+Definition sq_layout_wf (n : nat) (first : list dq_item) (rest : list (brk_layout * list dq_item)) : bool :=
+  dq_layout_wf n first rest && forallb sq_item_wf first
+  && forallb (fun p => negb (bl_escaped (fst p)) && forallb sq_item_wf (snd p)) rest.
+Definition sq_render (first : list dq_item) (rest : list (brk_layout * list dq_item)) : list N :=
+  flat_map sq_src first ++ flat_map (fun p => render_brk (fst p) ++ flat_map sq_src (snd p)) rest.
+
+(* plain: lines of text (7.3.3), folded breaks only *)
+Definition c_indicator (c : N) : bool :=
+  existsb (N.eqb c) [45; 63; 58; 44; 91; 93; 123; 125; 35; 38; 42; 33; 124; 62; 39; 34; 37; 64; 96].
+Definition c_flow_indicator (c : N) : bool := existsb (N.eqb c) [44; 91; 93; 123; 125].
+(* c-printable without white space, breaks and the byte order mark *)
+Definition ns_char (c : N) : bool :=
+  (32 <? c) && (c <=? 1114111) && negb (c =? 65279) && negb ((127 <=? c) && (c <=? 159) && negb (c =? 133))
+  && negb ((55296 <=? c) && (c <=? 57343)) && negb ((c =? 65534) || (c =? 65535)).
+Definition ns_plain_safe (flow : bool) (c : N) : bool := ns_char c && negb (flow && c_flow_indicator c).
+(* ns-plain-char at position i of a line: [prev] and [next] are the neighbours inside the line (0 = none) *)
+Definition plain_char_wf (flow : bool) (prev c next : N) : bool :=
+  if is_sp c then true
+  else if c =? 58 then ns_plain_safe flow next
+  else if c =? 35 then ns_char prev
+  else ns_plain_safe flow c.
+Fixpoint plain_line_chars_wf (flow : bool) (prev : N) (l : list N) : bool :=
+  match l with
+  | [] => true
+  | c :: r => plain_char_wf flow prev c (hd 0 r) && plain_line_chars_wf flow c r
+  end.
+Definition plain_line_wf (flow : bool) (l : list N) : bool :=
+  match l with [] => false | c :: _ => negb (is_sp c) && negb (is_sp (last l 0)) && plain_line_chars_wf flow 0 l end.
+Definition plain_first_wf (flow : bool) (l : list N) : bool :=
+  match l with
+  | c :: r => negb (c_indicator c) || (((c =? 45) || (c =? 63) || (c =? 58)) && ns_plain_safe flow (hd 0 r))
+  | [] => false
+  end.
+Definition plain_layout_wf (flow : bool) (n : nat) (first : list N) (rest : list (brk_layout * list N)) : bool :=
+  plain_first_wf flow first && plain_line_wf flow first
+  && forallb (fun p => brk_wf n (fst p) && negb (bl_escaped (fst p)) && plain_line_wf flow (snd p)
+                       && negb (marker_at_col0 (bl_indent (fst p)) (snd p))) rest.
+Definition plain_render (first : list N) (rest : list (brk_layout * list N)) : list N :=
+  first ++ flat_map (fun p => render_brk (fst p) ++ snd p) rest.
+Definition plain_text (first : list N) (rest : list (brk_layout * list N)) : list N :=
+  fold_lines first (map (fun p => (brk_of (fst p), snd p)) rest).
